@@ -128,6 +128,8 @@ Fixpoint paste_block (lines0 : list str) (parts : list str) (index sc count : Z)
   end.
 
 Definition doc_paste (d : doc) (data : clip) (mode count : Z) : option (str * Z) :=
+  (* "if count < 1: return Document(self.text, self.cursor_position)" *)
+  if count <? 1 then mk_document (dtext d) (dcur d) else
   let before := mode =? VI_BEFORE in
   let after := mode =? VI_AFTER in
   let t := dtext d in
@@ -233,7 +235,8 @@ Definition tobj_selection_type (tt : Z) : Z :=
 Definition operator_range (d : doc) (start end_ tt : Z) : Z * Z :=
   let s0 := if start <? end_ then start else end_ in
   let e0 := if start <? end_ then end_ else start in
-  let e1 := if (tt =? EXCLUSIVE) && (snd (translate_index_to_position d (e0 + dcur d)) =? 0)
+  let e1 := if (tt =? EXCLUSIVE) && (s0 <? e0)
+               && (snd (translate_index_to_position d (e0 + dcur d)) =? 0)
             then e0 - 1 else e0 in
   let e2 := if tt =? INCLUSIVE then e1 + 1 else e1 in
   if tt =? LINEWISE then
@@ -247,9 +250,13 @@ Definition operator_range (d : doc) (start end_ tt : Z) : Z * Z :=
 (* TextObject.cut: None = Document(buffer.text, to, ...) asserts *)
 Definition tobj_cut (d : doc) (start end_ tt : Z) : option (option (str * Z) * clip) :=
   let '(f0, t0) := operator_range d start end_ tt in
+  (* "An empty range (failed motion, empty text object) cuts nothing." *)
+  if negb (tt =? LINEWISE) && (t0 <=? f0) then
+    Some (mk_document (dtext d) (dcur d), mkclip [] (tobj_selection_type tt))
+  else
   let from_ := f0 + dcur d in
   let to := t0 + dcur d in
-  let to' := if tt =? LINEWISE then to else to - 1 in
+  let to' := if (tt =? LINEWISE) || (tt =? TBLOCK) then to else to - 1 in
   if len (dtext d) <? to' then None
   else Some (doc_cut_selection (mkdoc (dtext d) to') (from_, tobj_selection_type tt) true).
 
@@ -438,8 +445,10 @@ Definition vi_dd (s : st) (arg : Z) : out :=
   let before0 := join [NL] (slice_to ls row) in
   let deleted := join [NL] (slice2 ls row (row + arg)) in
   let after := join [NL] (slice_from ls (row + arg)) in
-  let nonempty (x : str) := match x with [] => false | _ => true end in
-  let before := if nonempty before0 && nonempty after then before0 ++ [NL] else before0 in
+  let nonempty (x : list str) := match x with [] => false | _ => true end in
+  (* the line lists are tested, not the joined strings *)
+  let before := if nonempty (slice_to ls row) && nonempty (slice_from ls (row + arg))
+                then before0 ++ [NL] else before0 in
   let t' := before ++ after in
   let c' := len before + len after - len (lstrip_by (Z.eqb SP) after) in
   match mk_document t' c' with
@@ -496,7 +505,8 @@ Definition vi_visual (s : st) (sel : Z * Z) (key r : Z) : out :=
           if is_register_name r then
             match nd with
             | None => (E_ASSERT, s0)
-            | Some _ => ok (with_sel (with_regs s0 (reg_set (sregs s0) r data)) None)
+            | Some _ =>
+                ok (with_sel (if nonempty then with_regs s0 (reg_set (sregs s0) r data) else s0) None)
             end
           else ok (with_sel s0 None)
     end.
